@@ -4,6 +4,7 @@ CONSTANTS
   Procs = {1, 2, 3}
   Prog <- P3
   MaxNodes = 4
+  TailSkip = FALSE
   NoValidate = FALSE
 INVARIANT LinOK
 INVARIANT StructureOK
